@@ -44,11 +44,15 @@ R(ok, s, mu) == [ok |-> ok, store |-> s, mut |-> mu]
 
 ApplyOp(i, x, y) == CASE i = 1 -> x + y [] i = 2 -> x - y [] OTHER -> x * y
 
+(* kind annotation of an annotated define: 1 = <f64>, 2 = <[f64]:1,2> (element kind and dimensions of the source), 3 = <[f64]> *)
+AnnotFits(i, v) == (i = 1 /\ v.cls = "sc") \/ (i \in {2, 3} /\ v.cls = "mat")
+
 (* statements whose outcome the property leaves open (table += table panics into an error today): *)
 (* excluded from the bounded alphabet; trace validation checks only the frame for them             *)
 Unspecified(s, a) ==
   \/ a.a = "OpAssignVar" /\ s[a.n] # Undef /\ s[a.m] # Undef /\ s[a.n].cls = "tbl" /\ s[a.m].cls = "tbl"
   \/ a.a = "AssignFromPart" /\ a.i = 2 /\ s[a.m] # Undef /\ s[a.m].cls = "mat"    \* m.1 on a MATRIX reads a column: not modelled here
+  \/ a.a = "DefineFromVarAnnot" /\ s[a.m] # Undef /\ ~AnnotFits(a.i, s[a.m])          \* a conversion (scalar -> matrix broadcast, ...): C12's subject
 
 Effect(s, mu, a) ==
   LET n == a.n
@@ -57,6 +61,8 @@ Effect(s, mu, a) ==
          IF ~Def(s, n) THEN R(TRUE, [s EXCEPT ![n] = a.v], IF a.mu THEN mu \cup {n} ELSE mu) ELSE R(FALSE, s, mu)
     [] a.a = "DefineFromVar" ->   \* n := m : the value of m is COPIED
          IF ~Def(s, n) /\ Def(s, m) THEN R(TRUE, [s EXCEPT ![n] = s[m]], IF a.mu THEN mu \cup {n} ELSE mu) ELSE R(FALSE, s, mu)
+    [] a.a = "DefineFromVarAnnot" ->   \* n<K> := m with K the kind m already has: no conversion takes place, the value of m is COPIED
+         IF ~Def(s, n) /\ Def(s, m) /\ AnnotFits(a.i, s[m]) THEN R(TRUE, [s EXCEPT ![n] = s[m]], IF a.mu THEN mu \cup {n} ELSE mu) ELSE R(FALSE, s, mu)
     [] a.a = "Assign" ->          \* n = v : defined, mutable target holding a value of the same class
          IF Def(s, n) /\ n \in mu /\ s[n].cls = a.v.cls /\ a.v.cls \in {"sc", "mat"}
          THEN R(TRUE, [s EXCEPT ![n] = a.v], mu) ELSE R(FALSE, s, mu)
